@@ -14,6 +14,15 @@ func init() {
 			{"doernerSenderUnmarshalCBOR", "doerner ConfigSender.UnmarshalCBOR", g("protocols/doerner/keygen/keygen.go", "ConfigSender.UnmarshalCBOR")},
 			{"presigUnmarshalCBOR", "ecdsa.PreSignature.UnmarshalCBOR", g("pkg/ecdsa/presignature.go", "PreSignature.UnmarshalCBOR")},
 			{"signatureUnmarshalCBOR", "ecdsa.Signature.UnmarshalCBOR", g("pkg/ecdsa/signature.go", "Signature.UnmarshalCBOR")},
+			{"validatePrime", "paillier.ValidatePrime: what a restored prime is held to", g("pkg/paillier/secret.go", "ValidatePrime")},
+			{"validateN", "paillier.ValidateN", g("pkg/paillier/public.go", "ValidateN")},
+			{"pedersenValidateParameters", "pedersen.ValidateParameters", g("pkg/pedersen/pedersen.go", "ValidateParameters")},
+			{"ridValidate", "types.RID.Validate", g("internal/types/rid.go", "RID.Validate")},
+			{"frostConfigValidate", "frost Config.Validate: the rules a restored config is held to", g("protocols/frost/keygen/config.go", "Config.Validate")},
+			{"taprootConfigValidate", "frost TaprootConfig.Validate", g("protocols/frost/keygen/config.go", "TaprootConfig.Validate")},
+			{"frostValidateShares", "frost validateShares", g("protocols/frost/keygen/config.go", "validateShares")},
+			{"doernerReceiverValidate", "doerner ConfigReceiver.Validate", g("protocols/doerner/keygen/keygen.go", "ConfigReceiver.Validate")},
+			{"doernerSenderValidate", "doerner ConfigSender.Validate", g("protocols/doerner/keygen/keygen.go", "ConfigSender.Validate")},
 			{"otSendSetupFields", "ot.CorreOTSendSetup: fields (unexported: dropped by the default encoder) and its own encoder", append(structFields("internal/ot/correlated.go", "CorreOTSendSetup"), returnsIn("internal/ot/correlated.go", "CorreOTSendSetup.MarshalBinary")...)},
 		}
 	})
